@@ -1,2 +1,9 @@
 pub mod analyzer;
 pub mod report;
+#[cfg(solstat_verif)]
+pub mod opts;
+#[cfg(solstat_verif)]
+pub mod verif_shim;
+#[cfg(solstat_verif)]
+#[macro_use]
+extern crate colour;
